@@ -1103,7 +1103,6 @@ func checkAddressWrapGuards(c *core.Ctx) {
 	}
 }
 
-
 // boundsHelpers: the frontend methods that emit the out-of-bounds exit. setup = those with a result (the access
 // address) and the wrappers returning the result of one; rng = those without a result (range check of bulk operations).
 func boundsHelpers(p *packages.Package) (setup, rng map[*types.Func]bool) {
